@@ -59,3 +59,7 @@ Definition run_adaptive (scripts : list (nat * C12.Model.outcome)) (trees : list
   let s := a_rounds c n fuel (arun c O trees sched) in
   ((map (aresult s) (seq 0 n), map (C12.Model.results (ash s)) (seq 0 n)),
    (C12.Model.calls (ash s), (map (C12.Model.stats (ash s)) (seq 0 (length scripts)), (C12.Model.req (ash s), C12.Model.proc (ash s))))).
+
+(* B cases: the source registers of the register-derived entries of crash_info.possible_bit_flips, in array order (every register of
+   the case yields at least one candidate): the registers of the memory operand, inserted in operand order, read out of the BTreeSet *)
+Definition run_bitflip_sources (regs : list bytes) : list bytes := oset_of_list bytes_ltb regs.
